@@ -474,6 +474,11 @@ def rest(U, rep, tier, rule='R4.5', backends=('spring', 'positional', 'generaliz
 
 
 def run(U, rep, tier):
+  # R4.8: the ranges the rest clause is stated for are the model's: `dof.limit` is the reference built from the mjModel
+  # (a joint is limited iff its jnt_limited FLAG says so -- MuJoCo ignores the range of a joint with limited="false"; a
+  # loader that infers "limited" from lo < hi makes a system at rest outside that ignored range start moving)
+  from braxlint.props import c14 as _c14
+  _c14.loader_fields(U, rep, rule='R4.8', prefix=('dof.limit',), label='loader:', floor=1)
   leaf_laws(U, rep)
   momentum(U, rep, tier)
   rest(U, rep, tier)
